@@ -1,6 +1,7 @@
 package main
 
 import (
+	"os"
 	"fmt"
 	"runtime"
 	"sync"
@@ -57,8 +58,15 @@ func c01PKI() *c01pki {
 
 type c01fail struct{ kind, detail, caseName string }
 
+// c01guard: collector and exporter run inside this process; a decoder that allocates without end would kill
+// the check with no verdict. The watchdog reports the template in flight instead (memory only: the receive
+// timeouts of the sessions take care of hangs).
+var c01guard *common.Guard
+
 func c01session(cfg c01cfg, cases []e2eCase, msgs *int64, report func(c01fail)) {
 	pki := c01PKI()
+	slot := c01guard.Enter(cfg.name + ": session start")
+	defer slot.Leave()
 	in := collector.CollectorInput{Address: cfg.addr, Protocol: cfg.proto, MaxBufferSize: 65535, TemplateTTL: 0, IsEncrypted: cfg.encrypted}
 	if cfg.encrypted {
 		in.ServerCert, in.ServerKey = pki.cert, pki.key
@@ -104,10 +112,18 @@ run:
 			return nil
 		}
 	}
-	for _, c := range cases {
+	reused := entities.NewSet(false) // every other set of the session is built on this one after ResetSet
+	pick := func(i int) entities.Set {
+		if i%2 == 1 {
+			return reused
+		}
+		return nil
+	}
+	for ci, c := range cases {
+		slot.Update(cfg.name + ", template " + c.name)
 		id := ep.NewTemplateID()
 		t := c.template(id)
-		if _, err := ep.SendSet(c.tmplSet(id)); err != nil {
+		if _, err := ep.SendSet(c.tmplSetOn(pick(ci), id)); err != nil {
 			report(c01fail{"send-error", fmt.Sprintf("template: %v", err), c.name})
 			return
 		}
@@ -137,7 +153,7 @@ run:
 			for _, r := range g {
 				size += len(refcodec.EncodeRecord(t, r))
 			}
-			_, err := ep.SendSet(c.dataSet(id, g, gi))
+			_, err := ep.SendSet(c.dataSetOn(pick(gi+ci), id, g, gi))
 			if size > cfg.maxMsg {
 				if err == nil && size > 65535 {
 					report(c01fail{"oversized-sent", fmt.Sprintf("data set of %d bytes was sent", size), c.name})
@@ -224,6 +240,12 @@ run:
 
 func runC01(tier, replay string) int {
 	rep := common.NewReporter("C01")
+	c01guard = common.NewGuard(24*time.Hour, 8<<30, func(kind, detail string, what interface{}) {
+		rep.Report("e2e", kind, fmt.Sprintf("%v: %s", what, detail), what, nil)
+		rep.Finish()
+		os.Stdout.Sync()
+		os.Exit(1)
+	})
 	if tier == "replay" {
 		fmt.Println("C01 replays: re-run the check; failures are identified by transport + template name in the replay file")
 		tier = "quick"
